@@ -878,6 +878,13 @@ func (x *Exec) valEq(st *State, a, b *Val, t types.Type) *Term {
 		if b.K == kNil {
 			return Eq(a.Arr, IntLit(0))
 		}
+		// Go compares a slice only with nil: one side is the typed nil slice constant
+		if b.K == kSlice && b.Arr != nil && b.Arr.lit != nil && b.Arr.lit.Sign() == 0 {
+			return Eq(a.Arr, IntLit(0))
+		}
+		if b.K == kSlice && a.Arr != nil && a.Arr.lit != nil && a.Arr.lit.Sign() == 0 {
+			return Eq(b.Arr, IntLit(0))
+		}
 	case kStruct, kArray, kTuple:
 		if b.K == a.K && len(a.F) == len(b.F) {
 			var cs []*Term
